@@ -69,7 +69,8 @@ def expected_message(template, source):
 
 # (double quotes and backslashes in TOML *keys* are mangled by the third-party toml 0.10 parser before bumpver sees them)
 ODD_NAMES = ["with space.txt", "x'y.txt", "-dash.txt", "a b/c d.txt", "uni é.txt", "$dollar.txt", "semi;colon.txt",
-             "--update", "it's 'quoted'.txt", "`tick`.txt", "amp&ersand.txt", "back\\slash.txt", "dq\"uote.txt", "ver\\sion\\x.txt"]
+             "--update", "it's 'quoted'.txt", "`tick`.txt", "amp&ersand.txt", "back\\slash.txt", "dq\"uote.txt", "ver\\sion\\x.txt", "\"release\" notes.txt", "--force", "-A",
+             "a*.txt", "what?.txt"]
 
 
 class Argv:
@@ -94,11 +95,21 @@ class Argv:
         tag_msg = gen_message(rng, tag_source, self.real, allow_newline=not (ini and tag_source == "config")) if rng.random() < 0.8 else ""
         names = ["a.txt"]
         if not ini:
-            pool = [n for n in ODD_NAMES if not (self.real and (n.startswith("-") or "\\" in n or '"' in n))]
+            pool = list(ODD_NAMES)
             names += rng.sample(pool, rng.randint(0, 3))
         return {"syntax": syntax, "msg_source": msg_source, "tag_source": tag_source, "commit_msg": commit_msg,
                 "tag_msg": tag_msg, "names": names, "pers": "git" if (self.real or rng.random() < 0.6) else "hg",
                 "push": rng.random() < 0.5, "ops": [{"op": "update"}]}
+
+    def shrink(self, case):
+        """Fewer odd names, plainer messages."""
+        for i in range(1, len(case["names"])):
+            yield dict(case, names=case["names"][:i] + case["names"][i + 1:])
+        for key, plain in (("commit_msg", "bump {new_version}"), ("tag_msg", "")):
+            if case[key] != plain:
+                yield dict(case, **{key: plain})
+        if case.get("push"):
+            yield dict(case, push=False)
 
     def build(self, case, commit_msg, tag_msg, names):
         d = invoker.new_dir("a")
@@ -216,6 +227,14 @@ class Argv:
         want_adds = sorted([name_map.get(x, x) if i == len(argv) - 1 else x for i, x in enumerate(argv)] for argv in ctrl_staged)
         if sorted(staged) != want_adds:
             ctx.violation("C12", "staged_path_altered", facts, "add commands %r, expected %r" % (sorted(staged), want_adds))
+        # ... and what the tool makes of those commands (its own option parsing, paths read from stdin): exactly the configured paths
+        adds = [e for e in a if e["role"] == "add"]
+        resolved = sorted(p for e in adds for p in e["info"].get("paths", []))
+        if any(e["info"].get("sweep") for e in adds) or resolved != sorted([cfgname] + case["names"]):
+            ctx.violation("C12", "staged_path_altered", dict(facts, resolved=True), "the staging commands %r (stdin %r) name the paths %r%s, configured %r" % (
+                [e["argv"] for e in adds], [e.get("stdin") for e in adds if e.get("stdin") is not None], resolved,
+                " and one of them has no pathspec at all (stages every change)" if any(e["info"].get("sweep") for e in adds) else "",
+                sorted([cfgname] + case["names"])))
         if self.real:
             rg = repo
             body = rg.message_of("HEAD")
